@@ -46,6 +46,7 @@ package ctlog
 //@   requires !closed(p.done)
 //@   init gReplaceOK == 0 && gReplaceTried == 0 && gAppliedOK == 0 && gCachePuts == 0 && gFetches == 0
 //@   init gUp == emptyset("set[string]") && gUpTried == emptyset("set[string]") && gDiscarded == emptyset("set[string]")
+//@   invariant "range p.pendingLeaves" bound: rangeindex < len(p.pendingLeaves)
 //@   invariant "range p.pendingLeaves" count: n == old(l.tree.N) + rangeindex + 1
 //@   invariant "range p.pendingLeaves" overlay: hashReader != nil && isPrefix(old(l.gseq), hashReader.gseq) && slenQ(hashReader.gseq) == n
 //@   invariant "range p.pendingLeaves" no-ops: gReplaceTried == 0 && gUpTried == emptyset("set[string]") && gDiscarded == emptyset("set[string]") && gAppliedOK == 0 && gCachePuts == 0
